@@ -231,7 +231,7 @@ mzd_t *_mzd_mul_mp4(mzd_t *C, mzd_t const *A, mzd_t const *B, int cutoff) {
   if (B->ncols > 2 * bnc) {
     mzd_t const *B_last_col = mzd_init_window_const(B, 0, 2 * bnc, A->ncols, B->ncols);
     mzd_t *C_last_col       = mzd_init_window(C, 0, 2 * bnc, A->nrows, C->ncols);
-    mzd_addmul_m4rm(C_last_col, A, B_last_col, 0);
+    _mzd_mul_m4rm(C_last_col, A, B_last_col, 0, TRUE); /* overwrite: C is a destination here, not an accumulator */
     mzd_free_window((mzd_t *)B_last_col);
     mzd_free_window(C_last_col);
   }
@@ -239,7 +239,7 @@ mzd_t *_mzd_mul_mp4(mzd_t *C, mzd_t const *A, mzd_t const *B, int cutoff) {
     mzd_t const *A_last_row = mzd_init_window_const(A, 2 * anr, 0, A->nrows, A->ncols);
     mzd_t const *B_bulk     = mzd_init_window_const(B, 0, 0, B->nrows, 2 * bnc);
     mzd_t *C_last_row       = mzd_init_window(C, 2 * anr, 0, C->nrows, 2 * bnc);
-    mzd_addmul_m4rm(C_last_row, A_last_row, B_bulk, 0);
+    _mzd_mul_m4rm(C_last_row, A_last_row, B_bulk, 0, TRUE);
     mzd_free_window((mzd_t *)A_last_row);
     mzd_free_window((mzd_t *)B_bulk);
     mzd_free_window(C_last_row);
